@@ -69,7 +69,21 @@ def objOf (alph : List Char) (P : Str) (raw : RawLoc) (prog : List Step) : R Seq
   let x0 ← seqOf P alph l
   runProg alph x0 prog
 
+def pXform : P Xform := do
+  match (← tok) with
+  | "rs" => do let s ← pStrand; pure (.resetStrand s)
+  | "rev2" => pure .rev2
+  | "rp" => pure .resetParent
+  | "opt" => pure .optimize
+  | "sh0" => pure .shift0
+  | t => throw s!"xform? {t}"
+
 def ops : List (String × Op) := [
+  ("xform", do
+      let a ← pText; let p ← pStr; let raw ← pRawLoc; let t ← pXform
+      pure (showRS (fun (x : Location × R Str) =>
+          s!"{showLocation x.1} ; {match x.2 with | .ok d => showStr d | .error e => showE e}")
+        (do let l ← buildOn p raw; xformExtract p a t l))),
   ("extract", do
       let a ← pText; let p ← pStr; let raw ← pRawLoc
       pure (showRS showStr (do let l ← buildOn p raw; extract p a l))),
